@@ -49,6 +49,12 @@ PathTab ==
    prj  |-> [text |-> "/rj",          segs |-> <<Lit("rj")>>],
    pre  |-> [text |-> "/re",          segs |-> <<Lit("re")>>],
    pt2  |-> [text |-> "/t2",          segs |-> <<Lit("t2")>>],
+   psl  |-> [text |-> "/sl",          segs |-> <<Lit("sl")>>],
+   psls |-> [text |-> "/sl/",         segs |-> <<Lit("sl")>>],            \* differs from /sl by the trailing slash only: a resource of its own
+   prd  |-> [text |-> "/rd",          segs |-> <<Lit("rd")>>],
+   ppc  |-> [text |-> "/pc/{id}",     segs |-> <<Lit("pc"), Par("id")>>],
+   pmt  |-> [text |-> "/mt",          segs |-> <<Lit("mt")>>],
+   pgr  |-> [text |-> "/gr",          segs |-> <<Lit("gr")>>],
    ptt  |-> [text |-> "/tt",          segs |-> <<Lit("tt")>>],
    psp  |-> [text |-> "\"/s p\"",     segs |-> <<Lit("s p")>>],         \* a quoted path with a blank: refused (BlankPaths)
    pbad8 |-> [text |-> "/b\\xFF",     segs |-> <<Lit("b?")>>],          \* the harness writes the byte 0xFF: not UTF-8, refused
@@ -73,6 +79,9 @@ BodyTab ==
    str    |-> [text |-> "\"s\"",                 kind |-> "schema", root |-> "string", rtype |-> "string",  uses |-> {}, inh |-> {}, enums |-> {}, keys |-> {}, props |-> <<>>],
    ref1   |-> [text |-> "@t1",                   kind |-> "schema", root |-> "reference", rtype |-> "@t1",  uses |-> {"@t1"}, inh |-> {}, enums |-> {}, keys |-> {}, props |-> <<>>],
    refu   |-> [text |-> "@nope",                 kind |-> "schema", root |-> "reference", rtype |-> "@nope", uses |-> {"@nope"}, inh |-> {}, enums |-> {}, keys |-> {}, props |-> <<>>],
+   pcase  |-> [text |-> "{\"id\": 1, \"Key\": 1, \"KEY\": 2, \"key\": 3}", kind |-> "schema", root |-> "object", rtype |-> "object", uses |-> {}, inh |-> {}, enums |-> {}, keys |-> {"id", "Key", "KEY", "key"},
+               props |-> <<[key |-> "id", tt |-> "number", ty |-> "integer"], [key |-> "Key", tt |-> "number", ty |-> "integer"], [key |-> "KEY", tt |-> "number", ty |-> "integer"], [key |-> "key", tt |-> "number", ty |-> "integer"]>>],
+   objnull |-> [text |-> "{\n  \"m\": null // {enum: [], nullable: true}\n}", kind |-> "schema", root |-> "object", rtype |-> "object", uses |-> {}, inh |-> {}, enums |-> {}, keys |-> {"m"}, props |-> <<[key |-> "m", tt |-> "null", ty |-> "enum"]>>],
    hdr2   |-> [text |-> "{\"H\": \"w\", \"G\": 2}", kind |-> "schema", root |-> "object", rtype |-> "object",  uses |-> {}, inh |-> {}, enums |-> {}, keys |-> {"H", "G"}, props |-> <<[key |-> "H", tt |-> "string", ty |-> "string"], [key |-> "G", tt |-> "number", ty |-> "integer"]>>],
    hdr    |-> [text |-> "{\"H\": \"v\"}",        kind |-> "schema", root |-> "object", rtype |-> "object",  uses |-> {}, inh |-> {}, enums |-> {}, keys |-> {"H"}, props |-> <<[key |-> "H", tt |-> "string", ty |-> "string"]>>],
    pid    |-> [text |-> "{\"id\": 1}",           kind |-> "schema", root |-> "object", rtype |-> "object",  uses |-> {}, inh |-> {}, enums |-> {}, keys |-> {"id"}, props |-> <<[key |-> "id", tt |-> "number", ty |-> "integer"]>>],
